@@ -1,6 +1,7 @@
 import PV.Model.Coeff
 import PV.Proofs.CoeffSound
 import PV.Proofs.Gauss
+import Mathlib.Tactic.LinearCombination
 /-
   C15 helper lemmas: the expression `solve_affine_equations_for` assembles for one unknown
   evaluates to `constant + Σ coefficient · parameter`.
@@ -272,5 +273,281 @@ theorem getD_map_dot (p : Nat → Rat) (rows : List Row) (j : Nat) :
   cases rows[j]? with
   | none => simp [dot, dotFrom]
   | some r => simp
+
+/-! ### the assembled row represents `lhs - rhs` -/
+
+theorem dotFrom_set (x : Nat → Rat) (v : Int) : ∀ (l : Row) (i j : Nat), j < l.length →
+    dotFrom x i (l.set j (rowGet l j + v)) = dotFrom x i l + (v : Rat) * x (i + j)
+  | [], _, j, h => by simp at h
+  | a :: as, i, 0, _ => by
+    simp only [List.set_cons_zero, dotFrom, rowGet_cons_zero, Nat.add_zero]
+    push_cast; ring
+  | a :: as, i, j + 1, h => by
+    simp only [List.set_cons_succ, dotFrom, rowGet_cons_succ]
+    rw [dotFrom_set x v as (i + 1) j (by simpa using h)]
+    have : i + 1 + j = i + (j + 1) := by omega
+    rw [this]; ring
+
+theorem idxOf_spec : ∀ (keys : List Expr) (k : Expr) (j : Nat), idxOf keys k = some j →
+    ∃ u, keys[j]? = some u ∧ u.pyEq k = true
+  | [], k, j, h => by simp [idxOf] at h
+  | k' :: rest, k, j, h => by
+    simp only [idxOf] at h
+    split at h
+    · rename_i heq
+      simp only [Option.some.injEq] at h
+      subst h
+      exact ⟨k', by simp, heq⟩
+    · cases hr : idxOf rest k with
+      | none => rw [hr] at h; simp at h
+      | some j' =>
+        rw [hr] at h
+        simp only [Option.map_some, Option.some.injEq] at h
+        subst h
+        obtain ⟨u, hu, he⟩ := idxOf_spec rest k j' hr
+        exact ⟨u, by simpa using hu, he⟩
+
+theorem intOf_ok {t : Expr} {v : Int} (h : intOf t = .ok v) : t = .const (.int v) := by
+  unfold intOf at h
+  split at h
+  · simp only [pure, Except.pure, Except.ok.injEq] at h
+    subst h; rfl
+  · cases h
+
+/-- one step `entry += factor'·coeff`: the stored integer is `factor'·value(coeff)` -/
+theorem scaled_int {factor : Int} {coeff t : Expr} {v : Int} {qc : Rat}
+    (hm : pyBin .mul (.const (.int factor)) coeff = .ok t) (hi : intOf t = .ok v)
+    (hc : nv env coeff = some qc) : (v : Rat) = factor * qc := by
+  have h1 := pyMul_nv hm (nv_int factor) hc
+  rw [intOf_ok hi, nv_int] at h1
+  simpa using h1
+
+/-- Processing one side of an equation adds `factor · Σ coefficient·value(key)` to the residual
+`a·x - b·p` of the row, where the value of an unknown key is `x j`, of a parameter key `p c`, and
+of the constant key `p (number of parameters) = 1`. -/
+theorem assembleSide_value {unknowns params : List Expr} {factor : Int} (x p : Nat → Rat)
+    (hx : ∀ j u, unknowns[j]? = some u → nv env u = some (x j))
+    (hp : ∀ c u, params[c]? = some u → nv env u = some (p c))
+    (hp1 : p params.length = 1)
+    (hus : ∀ u ∈ unknowns, u.simple = true) (hpss : ∀ u ∈ params, u.simple = true) :
+    ∀ (d : Dict) (row row' : ARow) (qd : Rat), KeysSimple d →
+      row.1.length = unknowns.length → row.2.length = params.length + 1 →
+      assembleSide unknowns params factor row d = .ok row' → dictNV env d = some qd →
+      res x p row' = res x p row + factor * qd
+  | [], row, row', qd, _, _, _, h, hd => by
+    simp only [assembleSide, pure, Except.pure, Except.ok.injEq] at h
+    subst h
+    simp only [dictNV, Option.some.injEq] at hd
+    subst hd
+    ring
+  | (key, coeff) :: rest, row, row', qd, hks, hl1, hl2, h, hd => by
+    obtain ⟨qc, qk, qr, hc, hk, hr, rfl⟩ := dictNV_cons hd
+    have hkeys : key.simple = true := hks (key, coeff) (by simp)
+    have hrs : KeysSimple rest := fun kc hkc => hks kc (by simp [hkc])
+    simp only [assembleSide] at h
+    split at h
+    · -- an unknown
+      rename_i j hidx
+      obtain ⟨u, hu, heq⟩ := idxOf_spec unknowns key j hidx
+      have hjl : j < unknowns.length := (List.getElem?_eq_some_iff.1 hu).1
+      have : u = key := key_eq_of_pyEq (hus u (List.mem_of_getElem? hu)) hkeys heq
+      subst this
+      have hqk : qk = x j := by
+        have := hx j u hu
+        rw [hk] at this
+        exact Option.some.inj this
+      simp only [bind, Except.bind] at h
+      cases hm : pyBin .mul (.const (.int factor)) coeff with
+      | error e => rw [hm] at h; cases h
+      | ok t =>
+        rw [hm] at h
+        simp only at h
+        cases hi : intOf t with
+        | error e => rw [hi] at h; cases h
+        | ok v =>
+          rw [hi] at h
+          simp only at h
+          have hv := scaled_int hm hi hc
+          have ih := assembleSide_value x p hx hp hp1 hus hpss rest
+            (row.1.set j (rowGet row.1 j + v), row.2) row' qr hrs
+            (by simpa using hl1) hl2 h hr
+          rw [ih]
+          unfold res dot
+          simp only
+          rw [dotFrom_set x v row.1 0 j (by rw [hl1]; exact hjl), hv, hqk]
+          simp only [Nat.zero_add]
+          ring
+    · split at h
+      · -- a parameter
+        rename_i j hidx
+        obtain ⟨u, hu, heq⟩ := idxOf_spec params key j hidx
+        have hjl : j < params.length := (List.getElem?_eq_some_iff.1 hu).1
+        have : u = key := key_eq_of_pyEq (hpss u (List.mem_of_getElem? hu)) hkeys heq
+        subst this
+        have hqk : qk = p j := by
+          have := hp j u hu
+          rw [hk] at this
+          exact Option.some.inj this
+        simp only [bind, Except.bind] at h
+        cases hm : pyBin .mul (.const (.int (-factor))) coeff with
+        | error e => rw [hm] at h; cases h
+        | ok t =>
+          rw [hm] at h
+          simp only at h
+          cases hi : intOf t with
+          | error e => rw [hi] at h; cases h
+          | ok v =>
+            rw [hi] at h
+            simp only at h
+            have hv := scaled_int hm hi hc
+            have ih := assembleSide_value x p hx hp hp1 hus hpss rest
+              (row.1, row.2.set j (rowGet row.2 j + v)) row' qr hrs
+              hl1 (by simpa using hl2) h hr
+            rw [ih]
+            unfold res dot
+            simp only
+            rw [dotFrom_set p v row.2 0 j (by rw [hl2]; omega), hv, hqk]
+            simp only [Nat.zero_add]
+            push_cast
+            ring
+      · split at h
+        · -- the constant key
+          rename_i heq
+          have : key = one := key_eq_of_pyEq hkeys one_simple heq
+          subst this
+          have hqk : qk = 1 := by
+            rw [nv_one] at hk
+            exact (Option.some.inj hk).symm
+          simp only [bind, Except.bind] at h
+          cases hm : pyBin .mul (.const (.int (-factor))) coeff with
+          | error e => rw [hm] at h; cases h
+          | ok t =>
+            rw [hm] at h
+            simp only at h
+            cases hi : intOf t with
+            | error e => rw [hi] at h; cases h
+            | ok v =>
+              rw [hi] at h
+              simp only at h
+              have hv := scaled_int hm hi hc
+              have ih := assembleSide_value x p hx hp hp1 hus hpss rest
+                (row.1, row.2.set params.length (rowGet row.2 params.length + v)) row' qr hrs
+                hl1 (by simpa using hl2) h hr
+              rw [ih]
+              unfold res dot
+              simp only
+              rw [dotFrom_set p v row.2 0 params.length (by rw [hl2]; omega), hv, hqk]
+              simp only [Nat.zero_add, hp1]
+              push_cast
+              ring
+        · cases h
+
+theorem dotFrom_replicate (x : Nat → Rat) : ∀ (n i : Nat), dotFrom x i (List.replicate n 0) = 0
+  | 0, _ => rfl
+  | n + 1, i => by
+    simp only [List.replicate_succ, dotFrom, Int.cast_zero, zero_mul, zero_add]
+    exact dotFrom_replicate x n (i + 1)
+
+/-- **The assembled row represents `lhs - rhs`.**  If both sides of the equation evaluate (through
+their coefficient dictionaries) to `ql` and `qr` in an environment in which unknown `j` has the
+value `x j` and parameter `c` the value `p c`, then the residual `a·x - b·p` of the assembled
+integer row `(a | b)` is `ql - qr`. -/
+theorem assembleRow_value {unknowns params : List Expr} {eq : Expr × Expr} {row : ARow}
+    (x p : Nat → Rat) {ql qr : Rat}
+    (hx : ∀ j u, unknowns[j]? = some u → nv env u = some (x j))
+    (hp : ∀ c u, params[c]? = some u → nv env u = some (p c))
+    (hp1 : p params.length = 1)
+    (hus : ∀ u ∈ unknowns, u.simple = true) (hpss : ∀ u ∈ params, u.simple = true)
+    (h : assembleRow unknowns params eq = .ok row)
+    (hs1 : eq.1.simple = true) (hs2 : eq.2.simple = true)
+    (hr1 : recipOK env none eq.1 = true) (hr2 : recipOK env none eq.2 = true)
+    (hl : nv env eq.1 = some ql) (hr : nv env eq.2 = some qr) :
+    res x p row = ql - qr := by
+  unfold assembleRow at h
+  simp only [bind, Except.bind] at h
+  cases hdl : coeffs none eq.1 with
+  | error e => rw [hdl] at h; cases h
+  | ok dl =>
+    rw [hdl] at h
+    simp only at h
+    cases hdr : coeffs none eq.2 with
+    | error e => rw [hdr] at h; cases h
+    | ok dr =>
+      rw [hdr] at h
+      simp only at h
+      cases h1 : assembleSide unknowns params 1
+          (zeroRow unknowns.length, zeroRow (params.length + 1)) dl with
+      | error e => rw [h1] at h; cases h
+      | ok row1 =>
+        rw [h1] at h
+        simp only at h
+        have l1 := assembleSide_length dl _ row1 h1
+        simp only [zeroRow, List.length_replicate] at l1
+        have v1 := assembleSide_value x p hx hp hp1 hus hpss dl _ row1 ql
+          (coeffs_keys_simple none eq.1 dl hs1 hdl) (by simp [zeroRow]) (by simp [zeroRow]) h1
+          (coeffs_nv none eq.1 dl ql hs1 hdl hr1 hl)
+        have v2 := assembleSide_value x p hx hp hp1 hus hpss dr _ row qr
+          (coeffs_keys_simple none eq.2 dr hs2 hdr) l1.1 l1.2 h
+          (coeffs_nv none eq.2 dr qr hs2 hdr hr2 hr)
+        rw [v2, v1]
+        simp only [res, dot, zeroRow, dotFrom_replicate]
+        push_cast
+        ring
+
+theorem mapM_of_mem {α β : Type} {f : α → CR β} : ∀ (l : List α) (rs : List β),
+    l.mapM f = .ok rs → ∀ a ∈ l, ∃ r ∈ rs, f a = .ok r
+  | [], rs, _, a, ha => by simp at ha
+  | a0 :: l, rs, h, a, ha => by
+    rw [List.mapM_cons] at h
+    simp only [bind, Except.bind] at h
+    cases hf : f a0 with
+    | error e => rw [hf] at h; cases h
+    | ok v =>
+      rw [hf] at h
+      simp only at h
+      cases hrest : l.mapM f with
+      | error e => rw [hrest] at h; cases h
+      | ok vs =>
+        rw [hrest] at h
+        simp only [pure, Except.pure, Except.ok.injEq] at h
+        subst h
+        simp only [List.mem_cons] at ha
+        rcases ha with rfl | ha
+        · exact ⟨v, by simp, hf⟩
+        · obtain ⟨r, hr, hfr⟩ := mapM_of_mem l vs hrest a ha
+          exact ⟨r, by simp [hr], hfr⟩
+
+theorem nvL_get : ∀ (ps : List Expr) (qs : List Rat) (c : Nat) (u : Expr),
+    nvL env ps = some qs → ps[c]? = some u → ∃ q, qs[c]? = some q ∧ nv env u = some q
+  | [], qs, c, u, _, hu => by simp at hu
+  | p0 :: ps, qs, c, u, h, hu => by
+    obtain ⟨q, qs', hq, hqs, rfl⟩ := nvL_cons h
+    cases c with
+    | zero =>
+      simp only [List.getElem?_cons_zero, Option.some.injEq] at hu
+      subst hu
+      exact ⟨q, by simp, hq⟩
+    | succ c =>
+      simp only [List.getElem?_cons_succ] at hu
+      obtain ⟨q', h1, h2⟩ := nvL_get ps qs' c u hqs hu
+      exact ⟨q', by simpa using h1, h2⟩
+
+theorem forall2_get {α β : Type} {R : α → β → Prop} : ∀ {l1 : List α} {l2 : List β},
+    List.Forall₂ R l1 l2 → ∀ (j : Nat) (a : α), l1[j]? = some a → ∃ b, l2[j]? = some b ∧ R a b
+  | [], [], _, j, a, h => by simp at h
+  | a0 :: l1, b0 :: l2, .cons h0 hrest, j, a, h => by
+    cases j with
+    | zero =>
+      simp only [List.getElem?_cons_zero, Option.some.injEq] at h
+      subst h; exact ⟨b0, by simp, h0⟩
+    | succ j =>
+      simp only [List.getElem?_cons_succ] at h
+      obtain ⟨b, hb, hr⟩ := forall2_get hrest j a h
+      exact ⟨b, by simpa using hb, hr⟩
+
+theorem forall2_length {α β : Type} {R : α → β → Prop} : ∀ {l1 : List α} {l2 : List β},
+    List.Forall₂ R l1 l2 → l1.length = l2.length
+  | [], [], _ => rfl
+  | _ :: _, _ :: _, .cons _ hrest => by simp [forall2_length hrest]
 
 end PV.Coeff
